@@ -74,6 +74,7 @@ structure World where
   followers : List (Follower × Nat) := []     -- follower, history capacity
   hb        : Option (Buf Nat) := none
   hcap      : Nat := 0
+  held      : List (Nat × List (Option Nat)) := []   -- answers of RecordsFrom kept by the caller (values)
 
 def capOf (c : Nat) : Nat := if c = 0 then defaultCap else c
 
@@ -100,7 +101,7 @@ def modelStep (w : World) (ws : List String) : World × String :=
   | ["reset"] => ({}, "ok")
   | ["hb", "new", c] =>
     let b : Buf Nat := HistoryBuf.new (natArg c) none flushC
-    ({ w with hb := some b, hcap := natArg c }, hbObs b)
+    ({ w with hb := some b, hcap := natArg c, held := [] }, hbObs b)
   | "hb" :: rest =>
     match w.hb with
     | none => bad
@@ -112,6 +113,14 @@ def modelStep (w : World) (ws : List String) : World × String :=
         let b' := (List.range (natArg n)).foldl (fun b k => record b (natArg i + k) false) b
         ({ w with hb := some b' }, hbObs b')
       | ["from", i] => (w, fmtIds (recordsFrom b (natArg i)))
+      | ["hold", k, i] =>
+        if natArg k > 3 || k.toNat?.isNone then bad else
+        let ans := recordsFrom b (natArg i)
+        ({ w with held := (w.held.filter (fun e => e.1 != natArg k)) ++ [(natArg k, ans)] }, fmtIds ans)
+      | ["recheck", k] =>
+        match w.held.find? (fun e => e.1 == natArg k) with
+        | some e => (w, fmtIds e.2)
+        | none => bad
       | ["get", i] => (w, match get b (natArg i) with | some x => toString x | none => "nil")
       | ["resetidx", n] => let b' := resetWithIndex b (natArg n) false; ({ w with hb := some b' }, hbObs b')
       | ["resetidx", n, "fail"] => let b' := resetWithIndex b (natArg n) true; ({ w with hb := some b' }, hbObs b')
@@ -142,6 +151,24 @@ def modelStep (w : World) (ws : List String) : World × String :=
             | (w', l', true) => (w', l', acc.2.2 + 1)
             | (_, _, false) => acc) (w, l, 0)
         ({ res.1 with leader := some res.2.1 }, s!"ok accepted={res.2.2} next={res.2.1.hist.index}")
+    | _, _ => bad
+  | "burst" :: i :: specs =>
+    match w.leader, w.followers[natArg i]? with
+    | some l, some (f, _) =>
+      let rs := specs.filterMap parseRegion
+      if !f.connected || i.toNat?.isNone || specs.length < 2 || specs.length > 5 || rs.length != specs.length
+          || rs.any (·.leader.isNone) then bad
+      else
+        let res := rs.foldl
+          (fun (acc : World × Leader × String × List Msg) r =>
+            match leaderPut acc.2.1 r with
+            | (l', some m) =>
+              ({ acc.1 with followers := mapFollowers acc.1.followers (fun f => applyMsg f m) (·.connected) }, l',
+               acc.2.2.1 ++ "1", acc.2.2.2 ++ [m])
+            | (_, none) => (acc.1, acc.2.1, acc.2.2.1 ++ "0", acc.2.2.2)) (w, l, "", [])
+        let w' := { res.1 with leader := some res.2.1 }
+        let fn := match w'.followers[natArg i]? with | some (f', _) => f'.hist.index | none => 0
+        (w', s!"ok acc={res.2.2.1} next={res.2.1.hist.index} msgs={fmtMsgs res.2.2.2} fnext={fn}")
     | _, _ => bad
   | ["follower", c] =>
     if w.followers.length ≥ 4 then bad
@@ -210,6 +237,7 @@ structure Mon where
   log     : C16.Log Nat := { log := [], next := 0 }
   dirty   : Bool := false      -- an injected kv failure since the last persist that was seen to succeed
   lastKv  : Option Nat := none -- persisted index as last reported
+  held    : List (Nat × List (Option Nat)) := []   -- answers the caller keeps
   -- sync
   fs      : List MonF := []
 
@@ -241,6 +269,20 @@ def msgIds (s : String) : List Nat :=
         if b.isEmpty then [] else (b.splitOn ",").map (fun p => natArg ((p.splitOn "~").headD ""))
       | _ => [])
 
+/-- `(region id, leader peer id)` per position of `msgs=[start/n/ns/nl{id~l,…};…]`, flattened (`x` = no leader entry) -/
+def msgPairs (s : String) : List (Nat × Nat) :=
+  let inner := ((s.drop 1).dropEnd 1).toString
+  if inner.isEmpty then [] else
+    (inner.splitOn ";").flatMap (fun m =>
+      match m.splitOn "{" with
+      | [_, body] =>
+        let b := (body.dropEnd 1).toString
+        if b.isEmpty then [] else (b.splitOn ",").map (fun p =>
+          match p.splitOn "~" with
+          | [a, l] => (natArg a, natArg l)
+          | _ => (0, 0))
+      | _ => [])
+
 def updF (m : Mon) (i : Nat) (g : MonF → MonF) : Mon :=
   match m.fs[i]? with
   | some x => { m with fs := m.fs.set i (g x) }
@@ -257,7 +299,7 @@ def seenKv (m : Mon) (failed : Bool) (impl : String) : Mon :=
 def monitor (m : Mon) (ws : List String) (impl : String) : Mon × List String :=
   match ws with
   | ["reset"] => ({}, [])
-  | ["hb", "new", c] => ({ m with cap := natArg c, log := { log := [], next := 0 }, dirty := false, lastKv := none }, [])
+  | ["hb", "new", c] => ({ m with cap := natArg c, log := { log := [], next := 0 }, dirty := false, lastKv := none, held := [] }, [])
   | ["hb", "rec", i] | ["hb", "rec", i, "fail"] =>
     let log : C16.Log Nat := { log := m.log.log ++ [natArg i], next := m.log.next + 1 }
     let fails := if natField impl "next" == some log.next then [] else
@@ -274,6 +316,19 @@ def monitor (m : Mon) (ws : List String) (impl : String) : Mon × List String :=
     let ok := ans.all (·.isSome) && C16.checkRecordsFrom m.cap m.log (natArg i) (ans.filterMap id)
     (m, if ok then [] else
       [s!"sig=C16.records-from-wrong cap={m.cap} next={m.log.next} loglen={m.log.log.length} index={natArg i} expected={C16.expected m.cap m.log (natArg i)} got={impl}"])
+  | ["hb", "hold", k, i] =>
+    if !impl.startsWith "[" then (m, []) else
+    let ans := parseIdList impl
+    let ok := ans.all (·.isSome) && C16.checkRecordsFrom m.cap m.log (natArg i) (ans.filterMap id)
+    ({ m with held := (m.held.filter (fun e => e.1 != natArg k)) ++ [(natArg k, ans)] }, if ok then [] else
+      [s!"sig=C16.records-from-wrong cap={m.cap} next={m.log.next} loglen={m.log.log.length} index={natArg i} expected={C16.expected m.cap m.log (natArg i)} got={impl}"])
+  | ["hb", "recheck", k] =>
+    if !impl.startsWith "[" then (m, []) else
+    match m.held.find? (fun e => e.1 == natArg k) with
+    | some e =>
+      (m, if C16.checkHeld e.2 (parseIdList impl) then [] else
+        [s!"sig=C16.held-records-changed slot={natArg k} answer={fmtIds e.2} now={impl}"])
+    | none => (m, [])
   | ["hb", "resetidx", n] | ["hb", "resetidx", n, "fail"] =>
     let fails := if natField impl "next" == some (natArg n) then [] else
       [s!"sig=C16.next-index-wrong expected={natArg n} obs={impl}"]
@@ -297,6 +352,19 @@ def monitor (m : Mon) (ws : List String) (impl : String) : Mon × List String :=
       ({ m with fs := m.fs.map (fun x =>
           if x.connected then { x with sent := id :: x.sent, next := some n } else { x with sent := [] }) }, [])
     | none => (m, [])
+  | "burst" :: _ :: specs =>
+    -- the accepted changes (as the harness reports) must be what the live followers were sent: every change
+    -- once, in order, each region with its own leader
+    match field impl "acc", field impl "msgs", natField impl "next" with
+    | some acc, some ms, some n =>
+      let accepted := (specs.zip acc.toList).filterMap (fun (x : String × Char) =>
+        if x.2 == '1' then (parseRegion x.1).map (fun r => (r.md.id, match r.leader with | some p => p.id | none => 0)) else none)
+      let fails := if C16.checkBroadcast accepted (msgPairs ms) then [] else
+        [s!"sig=C16.broadcast-not-the-changes changes={accepted} sent={msgPairs ms}"]
+      if accepted.isEmpty then (m, fails) else
+      ({ m with fs := m.fs.map (fun x =>
+          if x.connected then { x with sent := accepted.map (·.1) ++ x.sent, next := some n } else { x with sent := [] }) }, fails)
+    | _, _, _ => (m, [])
   | ["connect", i, _] =>
     match field impl "msgs", natField impl "fnext" with
     | some ms, some n =>
